@@ -57,6 +57,14 @@ def make_ref_class(P):
                 self.items.append(x)
             return len(self.items)
 
+        def amend(self, i, v):
+            # changes a stored argument in place (what an application does with the lists and dicts it was handed)
+            self.calls += 1
+            if 0 <= i < len(self.items) and isinstance(self.items[i], list):
+                self.items[i].append(v)
+                return len(self.items[i])
+            return -1
+
         def put(self, k, v):
             self.calls += 1
             self.table[k] = v
@@ -93,7 +101,14 @@ def make_ref_class(P):
             time.sleep(t)
             self.items.append("slow-done")
 
+        def peek(self):
+            return self.items           # (a reference to the object's own mutable state: used by the aliasing probe only)
+
         def dump(self):
+            import copy
+            return copy.deepcopy(self._dump())
+
+        def _dump(self):
             return {"counter": self.counter, "items": list(self.items), "table": dict(self.table), "calls": self.calls}
 
         @P.server.expose
@@ -113,14 +128,19 @@ def make_ref_class(P):
 
 def gen_calls(r, n, fail_at):
     calls = []
+    shared = [1, {"k": "v"}]        # one client-side object handed to several calls of the sequence: every call receives its own copy
     for i in range(n):
         if i == fail_at:
             k = r.randrange(12)
             calls.append([("fail_struct", (r.randrange(7),), {}), ("fail_struct", (r.randrange(7),), {}), ("fail_struct", (r.randrange(7),), {}), ("fail_app", ("app%d" % i,), {}), ("fail_value", ("boom%d" % i,), {}), ("fail_pyro", ("naming%d" % i,), {}), ("get", ("missing%d" % i,), {}), ("inc", ("notanumber",), {}),
                           ("hidden", (1,), {}), ("_priv", (), {}), ("doesnotexist", (1, 2), {}), ("append", (), {})][k])
             continue
-        k = r.randrange(7)
-        if k == 0:
+        k = r.randrange(9)
+        if k == 7:
+            calls.append(("append", (shared,), {}))
+        elif k == 8:
+            calls.append(("amend", (r.randrange(0, 4), "m%d" % i), {}))
+        elif k == 0:
             calls.append(("inc", (r.choice([1, 2, -5, 2 ** 70]),), {}))
         elif k == 1:
             calls.append(("inc", (), {"n": r.randrange(10)}))
@@ -217,6 +237,36 @@ def check_forget(fx, Ref, calls, sername, rec, n):
         return
     rec.count("forgotten_oneway_batch_equal")
     rec.count("state_compared")
+
+
+def alias_probe(fx, Ref, sername, rec, n):
+    """a result that refers to mutable state of the object, followed in the same batch by a call that changes that state"""
+    P = fx.P
+    calls = [("append", ([1],), {}), ("peek", (), {}), ("amend", (0, "x"), {}), ("peek", (), {})]
+    idx, idy = "ax%d" % n, "ay%d" % n
+    X, Y = Ref(), Ref()
+    fx.daemon.register(X, idx)
+    fx.daemon.register(Y, idy)
+    pay = {"calls": calls, "oneway": False, "alias_probe": True, "serializer": sername, "servertype": fx.servertype}
+    rec.case(("alias-probe", sername, fx.servertype), nontrivial=True)
+    try:
+        with fx.proxy(idx, serializer=sername) as px, fx.proxy(idy, serializer=sername) as py:
+            sres, sexc = run_sequential(P, py, calls)
+            bres, bexc, where, ret = run_batch(P, px, calls, False)
+    except Exception as x:
+        rec.inconc("harness call failed: %r" % (x,))
+        return
+    finally:
+        fx.daemon.unregister(X)
+        fx.daemon.unregister(Y)
+    if sexc is not None or bexc is not None:
+        rec.inconc("aliasing probe raised: %r / %r" % (sexc, bexc))
+        return
+    if not gen.deep_eq(bres, sres):
+        rec.violation("batch-result-reflects-later-call", "calls %r: one by one the results are %r; as a batch %r (the second result was serialized after the third call had changed "
+                      "the list it refers to)" % (calls, sres, bres), pay)
+    else:
+        rec.count("alias_probe_equal")
 
 
 def check_case(fx, Ref, calls, oneway, sername, rec, n):
@@ -344,6 +394,7 @@ def run_shard(shard, rec):
     rec.count("fixture_variant:" + fx.variant)
     try:
         n = 0
+        alias_probe(fx, Ref, shard["serializer"], rec, 0)
         # a few long batches (the quantifier's N is not small: anything that treats a long batch differently - slicing, buffering - shows here)
         for fail_at in (None, 0, 3, 63, 64, 70, 129):
             if rec.should_stop(30):
@@ -391,6 +442,8 @@ def replay(payload, rec):
     try:
         if "batches" in payload:
             check_reuse(fx, Ref, [(c, o) for c, o in payload["batches"]], payload["serializer"], rec, 1)
+        elif payload.get("alias_probe"):
+            alias_probe(fx, Ref, payload["serializer"], rec, 1)
         elif payload.get("forget"):
             check_forget(fx, Ref, payload["calls"], payload["serializer"], rec, 1)
         else:
